@@ -38,6 +38,12 @@ pub fn hcalc_small(s: &mut Src) -> R {
     ob!((&d2 * &q.submat_cols(0..rank)).is_zero(), "HomologyCalc::trans::free-generators-are-cycles");
     ob!((&p.submat_rows(0..rank) * &d1).is_zero(), "HomologyCalc::trans::boundaries-die-in-the-free-part");
     ob!((&d2 * &q).is_zero(), "HomologyCalc::trans::all-generators-are-cycles");
+    // the complex-level entry point picks the differential into and out of the degree, in that order
+    use yui_homology::{ComputeHomology, GenericChainComplex, SummandTrait};
+    let ds = [d1.clone(), d2.clone(), SpMat::<i64>::zero((0, 1))];
+    let cx = GenericChainComplex::<i64>::generate(0..=2isize, 1, |i| ds[i as usize].clone());
+    let h1 = cx.compute_homology_at(1, false);
+    ob!(h1.rank() == rank && h1.tors().iter().map(|x| x.abs()).collect::<Vec<_>>() == got, "compute_homology_at(i)==calculate(d[i-1],d[i])");
     Ok(())
 }
 
